@@ -250,6 +250,27 @@ NEW_KINDS = {
 }
 
 
+def _rebound_global(mod, name: str) -> bool:
+    """Is the module-level ``name`` assigned anywhere but once at top level (``global name`` in a function, a second
+    top-level assignment, an augmented assignment)?  Then it is a variable, not a named literal."""
+    cache = mod.__dict__.setdefault("_rebound_cache", {})
+    if name not in cache:
+        n_top = 0
+        rebound = False
+        for st in mod.tree.body:
+            tgts = st.targets if isinstance(st, ast.Assign) else [st.target] if isinstance(st, (ast.AnnAssign, ast.AugAssign)) else []
+            for t_ in tgts:
+                if isinstance(t_, ast.Name) and t_.id == name:
+                    n_top += 1
+                    if isinstance(st, ast.AugAssign):
+                        rebound = True
+        for n in ast.walk(mod.tree):
+            if isinstance(n, (ast.Global, ast.Nonlocal)) and name in n.names:
+                rebound = True
+        cache[name] = rebound or n_top > 1
+    return cache[name]
+
+
 _KNOWN_CONSTANTS = None
 
 
@@ -338,7 +359,7 @@ class Lowering:
             # (magic strings / numbers given a name by the change under analysis)
             known = _known_constants().get(r[1].name)
             node = r[1].constants.get(r[2])
-            if known is not None and r[2] not in known and isinstance(node, ast.Constant) and isinstance(node.value, (str, int, float, bool)) and node.value is not None:
+            if known is not None and r[2] not in known and isinstance(node, ast.Constant) and isinstance(node.value, (str, int, float, bool)) and node.value is not None and not _rebound_global(r[1], r[2]):
                 return ("const", node.value)
             return ("gconst", r[1].name, r[2])
         if kind == "ext":
